@@ -222,8 +222,11 @@ class SchemaBuilder(
             raise ValueError("Mapping types must have string-convertible keys")
         value = self.visit(value_type)
         if "pattern" in key:
+            # keys which don't match the pattern are rejected by the deserialization
             return json_schema(
-                type=JsonType.OBJECT, patternProperties={key["pattern"]: value}
+                type=JsonType.OBJECT,
+                patternProperties={key["pattern"]: value},
+                additionalProperties=False,
             )
         else:
             return json_schema(type=JsonType.OBJECT, additionalProperties=value)
